@@ -574,7 +574,7 @@ def gen_wrap_tables():
 # ----------------------------------------------------------------------------- control skeletons (C06 C07 C19 C20 C05)
 EXC_MAP = {'KeyboardInterrupt': ['.kbInt'], 'SystemExit': ['.sysExit'], 'BaseException': ['.sysExit', '.kbInt', '.special', '.other'],
            'Exception': ['.special', '.other']}
-RISKY_KERNPROF = ('execfile(', 'execfile_(', 'run_module(', 'rmod_(', 'autoprofile.run(', 'prof.runctx(', 'find_script(', 'find_module_script(')
+RISKY_KERNPROF = ('execfile(', 'execfile_(', 'run_module(', 'rmod_(', 'autoprofile.run(', 'prof.runctx(', 'find_script(', 'find_module_script(', 'prof.dump_stats(')
 RISKY_WRAP = ('func(*args', 'exec(cmd', 'method(input_)', 'await ')
 
 
